@@ -24,8 +24,13 @@ namespace CaddyModel.C02
 def admM0 : Addr := ⟨false, 10⟩
 def admM1 : Addr := ⟨true, 10⟩
 
-/-- protocol order: t0 t1 t2 m0 u0 u1 m1 (m0, m1: the admin endpoint's addresses) -/
-def addrUniverse : List Addr := [⟨false, 0⟩, ⟨false, 1⟩, ⟨false, 2⟩, admM0, ⟨true, 0⟩, ⟨true, 1⟩, admM1]
+/-- the two sockets of the port range r0 -/
+def rngP0 : Addr := ⟨false, 3⟩
+def rngP1 : Addr := ⟨false, 4⟩
+
+/-- protocol order: t0 t1 t2 m0 p0 p1 u0 u1 m1 (m0, m1: the admin endpoint's addresses; p0, p1: two
+    consecutive ports, one address spec `r0` when a server lists them next to each other) -/
+def addrUniverse : List Addr := [⟨false, 0⟩, ⟨false, 1⟩, ⟨false, 2⟩, admM0, rngP0, rngP1, ⟨true, 0⟩, ⟨true, 1⟩, admM1]
 
 def isAdminAddr (a : Addr) : Bool := a.id == 10
 
@@ -38,6 +43,8 @@ def addrOfName : String → Option Addr
   | "t2" => some ⟨false, 2⟩
   | "u0" => some ⟨true, 0⟩
   | "u1" => some ⟨true, 1⟩
+  | "p0" => some rngP0
+  | "p1" => some rngP1
   | _ => none
 
 def adminOfName : String → Option Addr
@@ -46,9 +53,13 @@ def adminOfName : String → Option Addr
   | _ => none
 
 def addrName (a : Addr) : String :=
-  if isAdminAddr a then (if a.unix then "m1" else "m0") else (if a.unix then "u" else "t") ++ toString a.id
+  if isAdminAddr a then (if a.unix then "m1" else "m0")
+  else if a.unix then "u" ++ toString a.id
+  else if a.id ≥ 3 then "p" ++ toString (a.id - 3)
+  else "t" ++ toString a.id
 
-def addrIdx (a : Addr) : Nat := if a.unix then 3 + a.id else a.id
+/-- position in the protocol order (admin addresses are never bound by the HTTP app) -/
+def addrIdx (a : Addr) : Nat := if a.unix then 6 + a.id else if a.id ≥ 3 then a.id + 1 else a.id
 
 def digitCh (n : Nat) : Char := if n > 9 then '+' else Char.ofNat (48 + n)
 
@@ -81,7 +92,9 @@ def canonNat (s : String) : Option Nat :=
   | some n => if toString n == s then some n else none
   | none => none
 
-def parseSrv (s : String) : Option (List Addr) := (s.splitOn ",").mapM addrOfName
+/-- `r0` is the port range: both sockets, in port order -/
+def parseSrv (s : String) : Option (List Addr) :=
+  ((s.splitOn ",").mapM fun n => if n == "r0" then some [rngP0, rngP1] else (addrOfName n).map fun a => [a]).map List.flatten
 
 def parseBody (fail : Bool) (body : String) (admin : Option Addr) : Option CfgSpec :=
   if body == "-" then some ⟨false, fail, [], admin⟩ else
@@ -301,8 +314,8 @@ def summary (sc : Scenario) : String :=
 
 /-! ### validating a recorded trace -/
 
-/-- snapshot positions of an admin address (t0 t1 t2 m0 | u0 u1 m1, three characters per unix socket) -/
-def adminPositions (a : Addr) : List Nat := if a.unix then [10, 11, 12] else [3]
+/-- snapshot positions of an admin address (t0 t1 t2 m0 p0 p1 | u0 u1 m1, three characters per unix socket) -/
+def adminPositions (a : Addr) : List Nat := if a.unix then [12, 13, 14] else [3]
 
 /-- The model's bookkeeping equals the recorded snapshot. The Shutdown of a replaced admin server runs
     concurrently with the harness's snapshot (it is not one of the closes the harness serialises), so the
@@ -357,15 +370,6 @@ def stepV (s : State) (st : Step) (why : String) : Verdict :=
   match step? s st with
   | some s' => .ok s'
   | none => .bad ("not-enabled:" ++ why)
-
-/-- open listeners on `a` according to a recorded snapshot -/
-def observedHolders (snap : String) (a : Addr) : Option Nat :=
-  let cs := snap.toList
-  -- positions: t0 t1 t2 m0 | u0(3) u1(3) m1(3)
-  let pos := if a.unix then (if isAdminAddr a then 11 else 5 + 3 * a.id) else (if isAdminAddr a then 3 else a.id)
-  match cs[pos]? with
-  | some c => if c.isDigit then some (c.toNat - 48) else none
-  | none => none
 
 /-- the Shutdown of a replaced admin server is not observed as an event: infer the `adminClose` steps
     that the recorded snapshot shows have happened -/
